@@ -58,7 +58,9 @@ def assign_registers(data: CodeData, code: list[IC10Instruction]):
             scope = ".".join(scopes)
             called_from[fname].add(scope)
 
-    module_names = set(data.modules.keys())
+    # import order, not a set: the chain below decides the register numbers and must
+    # not depend on the iteration order of a set of strings (hash seed of the process)
+    module_names = list(data.modules.keys())
     for name in called_from:
         if name == "":
             continue
